@@ -31,6 +31,10 @@ for i, c in enumerate(CRATES3):
         _c14.append(H(f"c14::{c}::c14_net_{s}", t if s != "10" else "quick",
                       f"SubnetFilter: {s[0]} Ipv4Network::new(any addr, 0..=32) + {s[1]} Ipv6Network::new(any addr, 0..=128), side flags, endpoints symbolic",
                       "matches() == CIDR oracle; config(subnet only) == rule"))
+    for s in ["011", "111"]:
+        _c14.append(H(f"c14::{c}::c14_cfgmix_{s}", "thorough",
+                      f"FilterConfig presence pattern port/ip/subnet={s}, 1 IPv4 element per list, endpoints of every family combination (v4/v6 and v6/v4 too), mode and ports symbolic",
+                      "should_process == documented combination rule"))
     for s in ["3300", "0033", "2222"]:
         _c14.append(H(f"c14::{c}::c14_port_{s}", "thorough",
                       f"PortFilter via builder: {s[0]} src ports, {s[1]} dst ports, {s[2]} src Range<u16>, {s[3]} dst Range<u16>; all values, any_port, both endpoint ports symbolic",
